@@ -52,6 +52,12 @@ def _row_of_own_mailbox(model, p, term):
 
 def run(ctx):
     model = ctx.model
+    shared.import_rule(ctx, "C17", ("R17.names",), "R08.names",
+                       "the mailbox name a connection remembers is not cleared while its close "
+                       "can still be accepted (same rule instances as R17.names)",
+                       "a close that relies on the remembered name (no `mailbox` field) is "
+                       "answered with an error instead of `closed`", minimum=1,
+                       only=lambda o: "mailbox" in o.construct)
     from .. import roles as _rm3
     shared.r_nocfg(ctx, "R08.nocfg", _rm3.get(model).close_op,
                    "under the other setting the close leaves rows, the Mailbox object or its "
